@@ -102,7 +102,12 @@ def placements(term, ty):
         return out
     if ty == "Null":
         return [("cmp-right", ("cmp", "eq", I1, term)), ("cmp-left", ("cmp", "ne", term, S1)),
-                ("ordering-right", ("cmp", "gt", I1, term)), ("in-element", ("cmp", "in", I1, ("list", (term, ("lit", "int", "7")))))]
+                ("ordering-right", ("cmp", "gt", I1, term)), ("in-element", ("cmp", "in", I1, ("list", (term, ("lit", "int", "7"))))),
+                ("in-subject", ("cmp", "in", term, ("list", (("lit", "int", "7"), I1)))),
+                ("in-subject-under-or", ("bool", "or", ("cmp", "eq", S1, ("lit", "str", "a")),
+                                          ("cmp", "in", term, ("list", (S1, ("lit", "str", "b")))))),
+                ("arith-operand", ("cmp", "eq", ("bin", "add", I1, term), ("lit", "int", "7"))),
+                ("fn-arg", ("cmp", "eq", ("call", "concat", (), (S1, term)), ("lit", "str", "q")))]
     if ty == "Geo":
         return [("fn-arg", ("call", "intersects", ("geo",), (ident("loc"), term)))]
     if ty in ("ListInt", "ListStr"):
